@@ -119,6 +119,29 @@ def run(ctx):
             if level != 0.05: ctx.nontrivial((desc['a'], desc['p'], level, tuple(pts)))
             ctx.tally('level', 'default' if level == 0.05 else ('<0.05' if level < 0.05 else '>0.05'))
             if i < 2: ctx.sample({'curve': desc, 'level': level, 'grid_limits': got, 'auto_limits': lims})
+        # ---- automatic mode with a caller-supplied *relative* tolerance on limits far below 1 (strong signals): the root must be accurate
+        # relative to its own size — a loose rtol is a loose relative tolerance, not an absolute one of that size
+        for j in range(ctx.n(24, 400)):
+            a = rng.choice([100.0, 300.0, 1000.0]) * rng.uniform(0.5, 2.0); p_ = rng.choice([1.0, 1.5])
+            shifts = sorted(rng.uniform(0.5, 2.0) for _ in range(5))
+            obs = lambda mu: math.exp(-a * mu ** p_)
+            band = lambda mu: [math.exp(-a * (mu / s_) ** p_) for s_ in shifts]
+            def stub(poi, d, m, return_expected_set=False, **kw):
+                tb = pyhf.tensorlib
+                return tb.astensor(obs(float(poi))), [tb.astensor(x) for x in band(float(poi))]
+            ul.hypotest = stub
+            level = rng.choice([0.05, 0.1, 0.2, 0.01]); rt = rng.choice([1e-2, 2e-2, 1e-3])
+            o, e = ul.toms748_scan(data, model, 0.0, 10.0, level=level, rtol=rt)
+            ctx.count(); ctx.tally('small_limit_rtol', str(rt))
+            lims = [float(o)] + [float(x) for x in e]
+            vals = [obs(lims[0])] + [band(lims[k])[k - 1] for k in range(1, 6)]
+            inp = {'curve': {'a': a, 'p': p_, 'shifts': shifts}, 'level': level, 'rtol': rt, 'limits': lims}
+            # d ln CLs = -ln(level) * p * d ln mu : a relative root error of a few rtol moves CLs by that fraction of the level
+            tol = level * (-math.log(level)) * p_ * rt * 6 + 1e-9
+            for k, v in enumerate(vals):
+                if abs(v - level) > tol:
+                    ctx.fail('C09/root-level-relative', 'CLs at the automatic-scan limit misses the requested level by more than the requested relative tolerance of the root allows (limit far below 1)', dict(inp, curve_index=k), v, level)
+                    break
     finally:
         ul.hypotest = orig
     # ---------------- interpolation primitive against numpy.interp
